@@ -31,7 +31,7 @@ struct C09 {
     rp = w.lookup(0x2100, 1);
   }
 
-  struct Exp { int app = 0; bool app_free = false; std::vector<int> modes; int resetreq = 0; std::vector<Frame> tx; bool tx_free = false; bool unordered = false; };
+  struct Exp { int app = 0; bool app_free = false; bool modes_free = false; int alt_mode = -1; std::vector<int> modes; int resetreq = 0; std::vector<Frame> tx; bool tx_free = false; bool unordered = false; };
 
   // random mode: the CAN driver may refuse the one frame a step transmits - that frame is lost, the node's state and everything else follow the state machine all the same
   bool inject_send_fault = false; int send_faults = 0;
@@ -46,7 +46,7 @@ struct C09 {
     int app = 0, rr = 0; std::vector<int> modes;
     for (auto &v : s.ev) { if (v.k == EV_CANRX) app++; else if (v.k == EV_MODE) modes.push_back((int)v.a); else if (v.k == EV_RESETREQ) rr++; }
     if (!e.app_free) CHECK(c, app == e.app, "unclaimed-frame-to-application-once", "%s in %s: frame handed to the application callback %d time(s), expected %d", what, MN[mode], app, e.app);
-    CHECK(c, modes == e.modes, "mode-change-callbacks", "%s in %s: %zu mode-change callback(s)%s, expected %zu", what, MN[mode], modes.size(), modes.empty() ? "" : (std::string(" (first: ") + std::to_string(modes[0]) + ")").c_str(), e.modes.size());
+    if (!e.modes_free) CHECK(c, modes == e.modes, "mode-change-callbacks", "%s in %s: %zu mode-change callback(s)%s, expected %zu", what, MN[mode], modes.size(), modes.empty() ? "" : (std::string(" (first: ") + std::to_string(modes[0]) + ")").c_str(), e.modes.size());
     CHECK(c, rr == e.resetreq, "reset-request-callback", "%s in %s: %d reset-request callback(s), expected %d", what, MN[mode], rr, e.resetreq);
     if (!e.tx_free) {
       CHECK(c, s.tx.size() == e.tx.size(), "frames-per-state", "%s in %s: %zu frame(s) transmitted%s%s, expected %zu%s%s", what, MN[mode], s.tx.size(), s.tx.empty() ? "" : ", first ", s.tx.empty() ? "" : s.tx[0].str().c_str(), e.tx.size(),
@@ -61,6 +61,7 @@ struct C09 {
     if (newmode != mode) mode_changes++;
     if (newmode != mode && (newmode == M_OP || mode == M_OP)) { if (pend && mode == M_OP) postponed_dropped++; inh_end = -1; pend = false; }   // PDOs are set up afresh on entering OPERATIONAL; nothing is owed after leaving it
     mode = newmode;
+    if (e.alt_mode >= 0 && (int)CONmtGetMode(&s.node->Nmt) == e.alt_mode) mode = e.alt_mode;   // a second request made from inside the mode-change callback: either of the two may be the one that stands
     CO_MODE got = CONmtGetMode(&s.node->Nmt);
     CHECK(c, (int)got == mode, "nmt-state", "after %s the node reports mode %d, the CiA 301 state machine is in %s (%d)", what, (int)got, MN[mode], mode);
     s.clear_tx(); s.clear_ev();
@@ -83,6 +84,16 @@ struct C09 {
     if (mode == M_INIT || mode == STOPPED_NODE) return;     // the documented way out of INIT is CONodeStart
     Exp e; if (nm != mode) e.modes = {nm};
     run(nm == M_PREOP ? "CONmtSetMode(PREOP)" : nm == M_OP ? "CONmtSetMode(OPERATIONAL)" : "CONmtSetMode(STOP)", [&]() { s.api_begin(); CONmtSetMode(&s.node->Nmt, (CO_MODE)nm); s.api_end("CONmtSetMode"); }, e, nm);
+  }
+  // the application asks for another mode from inside the mode-change callback of the first request (random mode): which of the two requests stands is not
+  // laid down - but the mode the node reports afterwards is the mode it is in: every probe that follows is judged by it
+  int nested = 0;
+  void api_mode_nested(int outer, int inner) {
+    if (mode == M_INIT || mode == STOPPED_NODE || outer == mode) return;
+    Exp e; e.modes_free = true; e.alt_mode = inner; bool done = false;
+    s.mode_change_hook = [&](int) { if (done) return; done = true; CONmtSetMode(&s.node->Nmt, (CO_MODE)inner); };
+    run("CONmtSetMode with another CONmtSetMode from inside the mode-change callback", [&]() { s.api_begin(); CONmtSetMode(&s.node->Nmt, (CO_MODE)outer); s.api_end("CONmtSetMode"); }, e, outer);
+    s.mode_change_hook = nullptr; nested++;
   }
   void start() {
     Exp e; int nm = mode;
@@ -209,7 +220,7 @@ struct C09 {
     if (mode_changes >= 2 && probes_non_preop >= 1) c.nontrivial = true;
     c.cls(mode_changes >= 2 ? "two-or-more-mode-changes" : "fewer-mode-changes");
     if (probes_non_preop) c.cls("probe-outside-pre-operational");
-    if (send_faults) c.cls("frame-refused-by-the-can-driver");
+    if (send_faults) c.cls("frame-refused-by-the-can-driver"); if (nested) c.cls("mode-requested-from-inside-the-mode-change-callback");
     if (postponed) c.cls("tpdo-postponed-by-inhibit-time"); if (postponed_dropped) c.cls("left-operational-with-postponed-tpdo");
   }
 };
@@ -224,8 +235,9 @@ void case_random(Ctx &c) {
   int steps = 0;
   while (!c.t.exhausted() && steps < 200) {
     steps++; c.ops++;
-    uint32_t k = c.t.below(36);
+    uint32_t k = c.t.below(38);
     if (c.t.chance(20)) x.inject_send_fault = true;
+    if (k >= 36) { static const int MM[3] = {M_PREOP, M_OP, M_STOP}; int o = MM[c.t.below(3)], i = MM[c.t.below(3)]; x.inject_send_fault = false; x.api_mode_nested(o, i); continue; }
     if (k == 29 && !c.t.chance(40)) k = 28;                     // node stop ends all checking: keep it rare
     if (k == 30) x.nmt_cmd(c.t.byte(), c.t.coin() ? x.s.nodeid : c.t.byte());
     else if (k == 31) x.probe_hb((uint8_t[]){0, 127, 5, 4, 77}[c.t.below(5)]);
@@ -244,6 +256,7 @@ Registrar reg(Prop{
     "operation sequences over a 30-letter alphabet {NMT command {1,2,128,129,130} x {own id, 0}, start/reset to another id, unknown command specifiers, CONmtSetMode x3, CONodeStart, CONmtReset x2, one probe per service "
     "(SDO read, in the random part also an SDO block download whose segment is processed silently, RPDO frame, SYNC, heartbeat of the monitored node (random part: also of a node that is not monitored - unclaimed), LSS, unrelated id, EMCY set/clear, TPDO trigger, tick), CONodeStop}: enumerated exhaustively to the depth bound (node id 1) and randomly up to 200 ops with node ids 1..127, random command specifiers/targets and heartbeat states. "
     "Oracle: reference CiA 301 slave state machine: mode after every op, exact mode-change and reset-request callback sequences, exactly the expected frames (boot-up once per INIT->PRE-OP entry; SDO answer only in PRE-OP/OP; TPDOs only in OP; EMCY only in PRE-OP/OP; heartbeat with the state byte in PRE-OP/OP/STOPPED; LSS answer always), "
+    "In the random part the application may ask for a second mode from inside the mode-change callback of a CONmtSetMode call: either request may stand, but the mode the node then reports is the one every following probe is judged by. "
     "RPDO effect only in OP, unclaimed frames handed to the application exactly once (not constrained in STOPPED and after CONodeStop). "
     "Non-trivial: >= 2 mode changes and >= 1 probe in a state other than PRE-OPERATIONAL. Distinct = distinct decoded choice sequence.",
     {
